@@ -123,3 +123,54 @@ def targets_update(tier):
     return [Target("update.update_deps.protocol_deps_merged", "mypy.server.update:update_deps", setup_update_deps, ensures=[("protocol-deps-merged-into-the-same-map-last", ens_update_deps)],
                    raises=(KeyError, AssertionError), overrides=ov, field_types=ft, loops=loops,
                    note="whole function at its normal exit; the merge of the targets' own dependencies (the inner loop) is not part of this contract")]
+
+
+# ---- update.calculate_active_triggers, one generic module of the update: every name whose snapshot differs
+# between the old and the new symbol table, every wildcard trigger of those, and the module itself when it is
+# new or deleted, end up among the activated names; nothing already collected is lost
+
+
+def setup_triggers(I):
+    mid = I.make(TStr(), "id")
+    names = I.make(TSet(TStr()), "names")
+    had_old = I.ctx.choose(2, "module-had-a-snapshot?")
+    has_new = I.ctx.choose(2, "module-still-exists?")
+    old = SDict([(mid, SOpaque("old_snapshot"))]) if had_old else SDict([])
+    new_tree = I.new_object(N.MypyFile) if has_new else NONE
+    if has_new:
+        new_tree.fields["names"] = SOpaque("new_names")
+    return {"args": [], "locals": {"id": mid, "names": names, "old_snapshots": old, "new_modules": SDict([(mid, new_tree)]), "manager": SOpaque("manager")},
+            "id": mid, "names": names, "names0": names.t, "had_old": had_old, "has_new": has_new}
+
+
+def ens_triggers(I, env, res):
+    final = env["__locals"].get("names")
+    if not isinstance(final, ZVal):
+        return z3.BoolVal(False)
+    n1 = final.t
+    x = z3.Const("trig_x", StrS)
+    diff, wild = I.ctx.ghost.get("diff"), I.ctx.ghost.get("wild")
+    if diff is None or wild is None:
+        return z3.BoolVal(False)
+    keeps = z3.ForAll([x], z3.Implies(z3.Or(z3.Select(env["names0"], x), z3.Select(diff, x), z3.Select(wild, x)), z3.Select(n1, x)))
+    own = z3.Select(n1, env["id"].t) if (not env["had_old"] or not env["has_new"]) else z3.BoolVal(True)
+    return z3.And(keeps, own)
+
+
+def targets_triggers(tier):
+    def diff_contract(I, a, k):
+        v = I.make(TSet(TStr()), "diff")
+        I.ctx.ghost["diff"] = v.t  # the value returned (the code goes on to mutate the set in place)
+        return v
+
+    def wild_contract(I, a, k):
+        v = I.make(TSet(TStr()), "wildcards")
+        I.ctx.ghost["wild"] = v.t
+        return v
+
+    ov = {"mypy.server.update:compare_symbol_table_snapshots": diff_contract, "mypy.server.astdiff:compare_symbol_table_snapshots": diff_contract,
+          "mypy.server.update:wildcard_triggers_for_changes": wild_contract, "mypy.server.update:snapshot_symbol_table": lambda I, a, k: SOpaque("snapshot"),
+          "mypy.server.astdiff:snapshot_symbol_table": lambda I, a, k: SOpaque("snapshot"), "mypy.nodes:SymbolTable": lambda I, a, k: SOpaque("empty_table")}
+    return [Target("update.calculate_active_triggers.module", "mypy.server.update:calculate_active_triggers", setup_triggers, loop_body=("for id in new_modules", None),
+                   ensures=[("changed-names-their-wildcards-and-new-or-deleted-modules-are-activated", ens_triggers)], raises=(), overrides=ov, field_types={},
+                   note="one generic module; the snapshot comparison and the wildcard rule are callee contracts (arbitrary sets)")]
